@@ -97,6 +97,147 @@ def _from_mps_cases(args):
     return out
 
 
+def _tree_path_cases(cases):
+    """TreePath.tla -> code: Tree.find_path and the environments calc_2site_rdm contracts, for every emitted (tree, n1, n2).
+    C11 constrains the RESULT (the RDM, compared with the dense partial trace in replay_tree and again here), so a different
+    path or environment selection is SPEC-DRIFT; only a wrong RDM is a violation."""
+    bootstrap()
+    from renormalizer.tn import BasisTree, TTNS
+    from renormalizer.tn import tree as tree_mod
+    from renormalizer.tn.node import TreeNodeBasis
+    from renormalizer.model import basis as ba
+    from .. import trees
+    out = {"cases": [], "viol": [], "drift": [], "rejected_corrupted": 0}
+    rec = []
+    orig_init = tree_mod.TTNEnviron.__init__
+    orig_child = tree_mod.TTNEnviron.get_child_indices
+    orig_parent = tree_mod.TTNEnviron.get_parent_indices
+
+    def init(self, *a, **k):
+        r = orig_init(self, *a, **k)
+        try:
+            self._verif_ready = True
+        except Exception:
+            pass
+        return r
+
+    def child(self, enode, i, *a, **k):
+        try:
+            if getattr(self, "_verif_ready", False):
+                rec.append(("child", self.node_idx[enode], self.node_idx[enode.children[i]]))
+        except Exception:
+            rec.append(("unobserved", -1, -1))
+        return orig_child(self, enode, i, *a, **k)
+
+    def parent(self, enode, *a, **k):
+        try:
+            if getattr(self, "_verif_ready", False):
+                rec.append(("parent", self.node_idx[enode], -1))
+        except Exception:
+            rec.append(("unobserved", -1, -1))
+        return orig_parent(self, enode, *a, **k)
+
+    tree_mod.TTNEnviron.__init__ = init
+    tree_mod.TTNEnviron.get_child_indices = child
+    tree_mod.TTNEnviron.get_parent_indices = parent
+    try:
+        cache = {}
+        for c in cases:
+            par = c["par"]
+            K = len(par)
+            cid = f"path/{''.join(str(x + 1) for x in par)}/{c['a']}-{c['b']}"
+            out["cases"].append(cid)
+            key = tuple(par)
+            if key not in cache:
+                nodes = [TreeNodeBasis([ba.BasisHalfSpin(i)]) for i in range(K)]
+                for i in range(1, K):
+                    nodes[par[i]].add_child(nodes[i])
+                bt = BasisTree(nodes[0])
+                tn = TTNS.random(bt, 0, 3)
+                tn = tn.to_complex(inplace=False) if hasattr(tn, "to_complex") else tn
+                pre = [bt.node_idx[n] for n in nodes]        # TLC id -> preorder index
+                inv = {p_: k for k, p_ in enumerate(pre)}
+                order = [None] * K
+                for k in range(K):
+                    order[pre[k]] = bt.node_list[pre[k]].basis_sets[0]
+                psi = np.asarray(trees.dense(tn, order=[nodes[k].basis_sets[0] for k in range(K)])).reshape([2] * K)
+                nrm = np.linalg.norm(psi)
+                tn = tn.scale(1.0 / nrm) if nrm > 1e-12 else tn
+                cache[key] = (tn, pre, inv, psi / nrm if nrm > 1e-12 else None)
+            tn, pre, inv, psi = cache[key]
+            i1, i2 = pre[c["a"]], pre[c["b"]]
+            try:
+                got_path = [inv[tn.node_idx[n]] for n in tn.find_path(tn.node_list[i1], tn.node_list[i2])]
+                del rec[:]
+                rdm = np.asarray(tn.calc_2site_rdm((i1, i2))[(i1, i2)])
+                got_envs = sorted([kind, inv[x], inv[y] if y >= 0 else -1] for kind, x, y in rec)
+            except Exception as e:
+                out["viol"].append((f"C11:rdm:2site-raises:{type(e).__name__}", f"{cid}: calc_2site_rdm(({i1},{i2})) raised {type(e).__name__}: {e}", {"case": c}))
+                continue
+            exp_envs = sorted([list(e) for e in c["envs"]])
+            if c.get("_corrupted"):
+                out["rejected_corrupted"] += int(got_path != c["path"] or got_envs != exp_envs)
+                continue
+            if got_path != c["path"]:
+                out["drift"].append(("C11:path:find_path", f"{cid}: find_path returned {got_path}, TreePath.tla specifies {c['path']}", {"case": c}))
+            elif got_envs != exp_envs:
+                out["drift"].append(("C11:path:environments", f"{cid}: calc_2site_rdm contracted the environments {got_envs}, TreePath.tla specifies {exp_envs}", {"case": c}))
+            if psi is not None:
+                L = "abcdefgh"[:K]
+                U = L.upper()
+                a_, b_ = c["a"], c["b"]
+                sub = "".join(U[x] if x in (a_, b_) else L[x] for x in range(K))
+                rho = np.einsum(f"{L},{sub}->{L[a_]}{L[b_]}{U[a_]}{U[b_]}", psi, psi.conj())
+                if rdm.shape != rho.shape or np.linalg.norm(rdm - rho) > 1e-8:
+                    out["viol"].append(("C11:rdm:2site:path", f"{cid}: calc_2site_rdm differs from the dense partial trace by "
+                                        f"{np.linalg.norm(rdm - rho) if rdm.shape == rho.shape else 'shape ' + str(rdm.shape)}", {"case": c}))
+    finally:
+        tree_mod.TTNEnviron.__init__ = orig_init
+        tree_mod.TTNEnviron.get_child_indices = orig_child
+        tree_mod.TTNEnviron.get_parent_indices = orig_parent
+    return out
+
+
+def tree_paths(ctx):
+    K = 5 if ctx.tier == "quick" else 6
+    cfg = tlc.make_cfg(constants=dict(K=K, Bug='"none"'), spec="Spec", invariants=["IsPath", "Shortest", "ExactCover", "EmitPath"])
+    r = tlc.run("TreePath", cfg, mode="emit", vacuity=True, timeout=3000)
+    ctx.add_tlc(r, f"TreePath K={K}: every increasing tree x every ordered pair of nodes: find_path and the environments of calc_2site_rdm")
+    if r["violated"]:
+        ctx.violation(f"C11:spec:TreePath:{r['violated']}", "TreePath violates " + r["violated"], {"tlc": (r.get("error_text") or "")[:2000]})
+    b = tlc.run("TreePath", tlc.make_cfg(constants=dict(K=4, Bug='"keep-parent"'), spec="Spec", invariants=["ExactCover"]), timeout=600, expect_violation=True)
+    ctx.add_tlc(b, "regression (must fail): TreePath without skip_parent")
+    if b["violated"] != "ExactCover":
+        raise MachineryError("TreePath regression keep-parent did not violate ExactCover")
+    cases = r["emitted"]
+    if len(cases) < 100:
+        raise MachineryError("TreePath emitted too few cases")
+    import copy
+    bad = []
+    for c in cases[:: max(1, len(cases) // 30)]:
+        x = copy.deepcopy(c)
+        x["_corrupted"] = True
+        x["path"] = x["path"][::-1]
+        bad.append(x)
+    allc = sorted(cases + bad, key=lambda c: c["par"])
+    n = 16
+    size = (len(allc) + n - 1) // n
+    rejected = 0
+    for st_, o in pmap(_tree_path_cases, [allc[i:i + size] for i in range(0, len(allc), size)], chunksize=1):
+        if st_ != "ok":
+            raise MachineryError("tree-path worker failed: " + o)
+        for c in o["cases"]:
+            ctx.case(fingerprint=c, nontrivial=True)
+        for key, what, detail in o["viol"]:
+            ctx.violation(key, what, detail)
+        for key, what, detail in o["drift"]:
+            ctx.drift(key, what, detail)
+        rejected += o["rejected_corrupted"]
+    if rejected != len(bad):
+        raise MachineryError(f"binding demonstration failed: {len(bad) - rejected} corrupted paths were accepted")
+    ctx.notes["tree_path_binding_demo"] = {"corrupted_copies": len(bad), "rejected": rejected}
+
+
 def run(ctx, owned=OWNED):
     from .. import replay_tree, trees
     from .. import concretize as cz
@@ -139,6 +280,7 @@ def run(ctx, owned=OWNED):
                 ctx.violation(key, what, detail)
     ctx.notes["tree_replay"] = {"trees": len(trs), "behaviours_per_tree": sum(per), "jobs_x2_universes": len(jobs), "actions_executed": steps, "pruned": pruned}
     if ctx.pid == "C11":
+        tree_paths(ctx)
         res = pmap(_from_mps_cases, [(ctx.seed, k) for k in range(8 if tier == "quick" else 32)], chunksize=1)
         for st_, o in res:
             if st_ != "ok":
